@@ -44,7 +44,8 @@ MODEL_FILES = ['Parser/PyStr.v', 'Parser/Lex.v', 'Parser/Format.v', 'Parser/Symb
                'CodeGen/CodeGenBlock.v', 'Extract/CodeGen/ExtractCodeGen.v']
 K_NAME = ('K_parse + K_text + K_pyast + K_code (extracted Parser / CodeGen models vs fsic.parse_model, Symbol.code/equation, the '
           'CPython ast of Model.CODE, the equations block of Model.CODE) + K_eval (CodeGenF.check_ccase on PrimFloat vs the real _evaluate(t): store, exception, accesses)')
-RULE = ('fixed corpus (doc examples, defect inputs) + arithmetic programs of 1-4 equations with shared variables, trap names '
+RULE = ('fixed corpus (doc examples, defect inputs) + EXHAUSTIVE: every statement Y = a | -a | a op b | f(a) | max/min(a, b) (thorough: also a op b op c and '
+        'a op (b op c)) over 12 trap-spelled atoms x 5 operators in two layouts + sampled beyond: arithmetic programs of 1-4 equations with shared variables, trap names '
         '(keyword-prefixed, function-name prefixes, t, T, selfie, leading underscore), lags/leads up to 3 (a minority two-digit), '
         'indexed left-hand sides, + - * / ** unary minus, exp log max min abs, redundant parentheses, random layout (blanks, tabs, '
         'signed/padded indexes, padded braces and angle brackets, wrapped lines, comments, CRLF) x data (nice, random, a share of '
@@ -56,10 +57,11 @@ TRUSTED = ['extraction of the CodeGen / parser models to OCaml (ExtrOcamlBasic +
            'table of np.exp / np.log / ** values)', "CPython's tokenize / ast / float() as the reading of the generated code"]
 ASSUMPTIONS = ['scripts are Latin-1', 'K_eval / the value oracle: decimal literals of at most 15 fractional digits and < 2**53, a '
                'feasible period t (lags <= t < len(span) - leads), every series of the span\'s length',
-               'operations CPython would perform on two literals alone (1/0, 2**3) are outside the value-level tie; K_eval skips the passes whose '
-               'result depends on integer literals being Python ints rather than floats (sign of an integer zero: -0 is 0)',
+               'subtrees of integer literals only (unary minus, + - *, abs, max, min) are computed on ints by the model as by CPython (fold_ints: -0 is 0); '
+               'other operations CPython would perform on Python numbers alone (1/0, 2**3, -max(0, X) when the maximum is the int 0) are outside the '
+               'value-level tie: evalmodel refuses them and K_eval skips the passes whose result depends on a non-constant Python int',
                'the text-level tie covers statements whose matches do not span the first `=` and that have no brace outside a parameter']
-EXHAUSTIVE = {'quick': False, 'thorough': False}
+EXHAUSTIVE = {'quick': True, 'thorough': True}
 CASE_TIMEOUT = 30
 SOURCES = ['parser.py']
 
@@ -563,6 +565,41 @@ def gen_text(rng):
     return {'kind': 'text', 'script': join_script(rng, stmts), 'stmts': stmts}
 
 
+# ============================================================================ kind 'text': exhaustive enumeration up to a size bound
+ENUM_ATOMS = [['T', 'v', 'X', None, 'X'], ['T', 'v', 'X', -1, 'X[-1]'], ['T', 'v', 'X', 1, 'X[+1]'], ['T', 'v', 'is_open', -12, 'is_open[ -12 ]'],
+              ['T', 'p', 'a', None, '{a}'], ['T', 'p', 'a', 2, '{ a }[2]'], ['T', 'e', 'e', None, '< e >'], ['T', 'v', 'not_X', None, 'not_X'],
+              ['T', 'v', 'expo', 0, 'expo[0]'], ['T', 'v', 'e5', None, 'e5'], ['N', '2'], ['N', '0.5']]
+ENUM_OPS = ['+', '-', '*', '/', '**']
+
+
+def enum_text(tier):
+    """EVERY statement  Y = a | -a | a op b | f(a) | max(a, b) | min(a, b)  [thorough: | a op b op c | a op (b op c)]  over 12 atoms
+    (terms spelled with the traps of the property: signed / padded / two-digit indexes, padded braces and angle brackets,
+    keyword-prefixed and function-prefixed names, explicit [0], a name that looks like an exponent) and 5 operators, in the tight
+    and in the one-blank layout"""
+    head = [['T', 'v', 'Y', None, 'Y'], ['=']]
+    A, O = ENUM_ATOMS, [['O', o] for o in ENUM_OPS]
+    bodies = [[a] for a in A] + [[['O', '-'], a] for a in A]
+    bodies += [[a, o, b] for a in A for o in O for b in A]
+    bodies += [[['F', f], ['('], a, [')']] for f in ('exp', 'log', 'abs', 'np.sqrt') for a in A]
+    bodies += [[['F', f], ['('], a, ['O', ','], b, [')']] for f in ('max', 'min') for a in A for b in A]
+    if tier != 'quick':
+        bodies += [[a, o1, b, o2, c] for a in A for o1 in O for b in A for o2 in O for c in A]
+        bodies += [[a, o1, ['('], b, o2, c, [')']] for a in A[:6] for o1 in O for b in A[:6] for o2 in O for c in A[:6]]
+    out = []
+    for body in bodies:
+        toks = copy.deepcopy(head + body)
+        assert wf_stmt(toks)
+        layouts = [layout(None, toks)[0]]                      # one blank around operators, none inside brackets
+        if len(body) <= 4 or body[0][0] == 'F':                # and the tightest layout: a blank only between two word characters
+            texts = [tok_text(tk) for tk in toks]
+            layouts.append([' ' if (a[-1] in WORD and b[0] in WORD) else '' for a, b in zip(texts, texts[1:])] + [''])
+        for gaps in layouts:
+            st = {'toks': toks, 'gaps': gaps, 'comment': ''}
+            out.append({'kind': 'text', 'script': stmt_text(st), 'stmts': [st], 'enum': True})
+    return out
+
+
 # ============================================================================ fixed corpus
 def _raw(script, expect=None, names=None):
     c = {'kind': 'raw', 'script': script}
@@ -609,7 +646,7 @@ def fixed_cases():
 
 
 def gen(rng, tier):
-    cases = fixed_cases()
+    cases = fixed_cases() + enum_text(tier)
     m = 1 if tier == 'quick' else 10
     cases += [gen_prog(rng) for _ in range(2500 * m)]
     cases += [gen_text(rng) for _ in range(2500 * m)]
@@ -752,7 +789,10 @@ def correspond(cases, obs, tag, tier):
         o = obs[i]
         real = o.get('prog') if o.get('prog') not in (None, 'untranslatable') else None
         if a == 'N' or real is None:
-            if (a == 'N') != (real is None) and cases[i]['kind'] == 'prog':
+            # evalmodel refuses (fail-closed) what CPython computes on ints rather than floats beyond constant folding
+            # (e.g. -max(0, X)): no reading of the real code to compare with
+            refused = real is None and 'Python int' in str(o.get('why', ''))
+            if (a == 'N') != (real is None) and cases[i]['kind'] == 'prog' and not refused:
                 note(i, 'K_pyast', a[:300], real if real is not None else o.get('why', o.get('build_exc', o.get('compile_exc'))))
             continue
         j = json.loads(a[2:])
